@@ -130,6 +130,7 @@ void  sim_after(uint64_t delay_ns, sim_timed_fn fn, void *arg);
 /* faults: returns errno to inject (>0) or 0. site = short name e.g. "qwrite" */
 int   sim_fault(const char *site);
 int   sim_fault_pending_total(void);
+int   sim_faults_fired(void);
 
 /* simulated timerfd / clock / pidfd access for harness oracles */
 typedef struct sim_timer_rec {
